@@ -511,6 +511,45 @@ class SymTimedelta:
     def __init__(self, total):
         self.total = total
 
+    @staticmethod
+    def _secs(o):
+        if isinstance(o, SymTimedelta):
+            return o.total
+        if isinstance(o, datetime.timedelta):
+            import fractions
+            return core.real_term(fractions.Fraction((o.days * 86400 + o.seconds) * 10 ** 6 + o.microseconds, 10 ** 6))
+        return None
+
+    @staticmethod
+    def _ranged(total):
+        lo = core.real_term(-_TD_MAX_DAYS * 86400)
+        hi = core.real_term((_TD_MAX_DAYS + 1) * 86400)
+        if core.mk(z3.Or(total < lo, total >= hi)):
+            raise OverflowError('days; must have magnitude <= 999999999')
+        return SymTimedelta(z3.simplify(total))
+
+    def __add__(self, o):
+        b = self._secs(o)
+        if b is None:
+            return NotImplemented
+        return self._ranged(self.total + b)
+    __radd__ = __add__
+
+    def __sub__(self, o):
+        b = self._secs(o)
+        if b is None:
+            return NotImplemented
+        return self._ranged(self.total - b)
+
+    def __rsub__(self, o):
+        b = self._secs(o)
+        if b is None:
+            return NotImplemented
+        return self._ranged(b - self.total)
+
+    def __neg__(self):
+        return self._ranged(-self.total)
+
 
 _TD_MAX_DAYS = 999999999
 
